@@ -97,7 +97,7 @@ func zz16TreeOf(s *zzmem.Store, ref string) string {
 	if tip == nil {
 		return ""
 	}
-	return s.CommitInfo(tip).Tree.String()
+	return s.TreeDigest(s.CommitInfo(tip).Tree)
 }
 
 // zz16Summary describes the state up to commit ids: the log as a sequence of
@@ -213,23 +213,11 @@ func HarnessC16Fault() {
 	verif.Assert(err != nil, "fault-is-reported")
 	for _, r := range zz16Managed {
 		now := zz16RefString(w.S.Ref(r))
-		// Known finding C16-K1: on the very first policy / attestation
-		// commit there is no prior tip to reset to, and the reference is
-		// left pointing at a commit the log never recorded.
-		k1 := beforeRefs[r] == "" && now != "" && now != zz16LatestTarget(log, r)
-		verif.Witness("C16-K1", k1)
-		verif.Assert(now == beforeRefs[r] || now == zz16LatestTarget(log, r) || k1, "managed-ref-unchanged-or-in-step-with-log["+r+"]")
+		verif.Assert(now == beforeRefs[r] || now == zz16LatestTarget(log, r), "managed-ref-unchanged-or-in-step-with-log["+r+"]")
 	}
 	// repeat once the fault has cleared
 	err2 := run()
-	k1retry := false
-	for _, r := range zz16Managed {
-		if beforeRefs[r] == "" && err2 != nil {
-			k1retry = true
-		}
-	}
-	verif.Witness("C16-K1", k1retry)
-	verif.Assert(err2 == nil || k1retry, "retry-after-fault-succeeds")
+	verif.Assert(err2 == nil, "retry-after-fault-succeeds")
 	if err2 == nil {
 		verif.Assert(zz16Summary(w.S) == want, "retry-reaches-the-uninterrupted-state")
 		verif.Reach("retried")
